@@ -70,6 +70,46 @@ Proof.
     exists arr'. repeat split; assumption.
 Qed.
 
+(** The same for any capacity: the visible part of a vector with [len arr = cap] behaves as a list with a capacity test before the
+    append -- the shape of the model's [unset_header_list] (capacity UNSET_CAP) and of the append in [set_header_list]
+    (capacity MAX_EXTRA_HEADERS). *)
+Lemma av_len_deref {T} (arr : list T) : forall n, n <= len arr -> len (gen_arrayvec_deref T n arr) = n.
+Proof.
+  unfold gen_arrayvec_deref. induction arr as [|x t IH]; intros n Hn; cbn [len] in Hn.
+  - cbn [take len]. lia.
+  - cbn [take]. destruct (n =? 0) eqn:En.
+    + apply N.eqb_eq in En. subst n. reflexivity.
+    + apply N.eqb_neq in En. cbn [len]. rewrite IH by lia. lia.
+Qed.
+
+Theorem gen_arrayvec_push_capped T cap n (arr : list T) v :
+  len arr = cap -> n <= cap ->
+  if cap <=? len (gen_arrayvec_deref T n arr)
+  then exists site, gen_arrayvec_push T n arr v = Panic site
+  else exists arr', gen_arrayvec_push T n arr v = Ok (n + 1, arr', tt) /\ len arr' = cap /\
+                    gen_arrayvec_deref T (n + 1) arr' = gen_arrayvec_deref T n arr ++ [v].
+Proof.
+  intros Hcap Hn. rewrite av_len_deref by lia. destruct (cap <=? n) eqn:Ec.
+  - apply N.leb_le in Ec. apply gen_arrayvec_push_full. lia.
+  - apply N.leb_gt in Ec. destruct (gen_arrayvec_push_ok T n arr v) as [arr' [H1 [H2 H3]]]; [lia|].
+    exists arr'. repeat split; [exact H1|lia|exact H3].
+Qed.
+
+(** Instance: the suppression list of AmendedRequest ([unset_header_list] of Gen2.v, the reading used in [gen_as_new_flow]). *)
+Theorem gen_arrayvec_push_is_unset n (arr : list bytes) k :
+  len arr = UNSET_CAP -> n <= len arr ->
+  match unset_header_list (gen_arrayvec_deref bytes n arr) k with
+  | Ok (l', _) => exists arr', gen_arrayvec_push bytes n arr k = Ok (n + 1, arr', tt) /\ len arr' = len arr /\
+                               gen_arrayvec_deref bytes (n + 1) arr' = l'
+  | Panic _ => exists site, gen_arrayvec_push bytes n arr k = Panic site
+  | Err _ => False
+  end.
+Proof.
+  intros Hcap Hn. pose proof (gen_arrayvec_push_capped bytes UNSET_CAP n arr k Hcap ltac:(lia)) as H.
+  unfold unset_header_list. destruct (UNSET_CAP <=? len (gen_arrayvec_deref bytes n arr)); [exact H|].
+  destruct H as [arr' [H1 [H2 H3]]]. exists arr'. repeat split; [exact H1|lia|exact H3].
+Qed.
+
 (** truncate: shortens the visible part, asserts that it does not lengthen it. *)
 Theorem gen_arrayvec_truncate_spec cur n :
   gen_arrayvec_truncate cur n = if n <=? cur then Ok (n, tt) else Panic "src/util.rs: assert! in truncate".
